@@ -103,7 +103,7 @@ PROPERTIES = {
         "level_note": "A1 (this is exactly what hides the rounding-level clauses), A4.",
     },
     "C13": {
-        "modules": ["interface", "parser", "met", "purity"], "level": "proof", "floor": 1000,
+        "modules": ["interface", "parser", "met", "purity", "geo"], "level": "proof", "floor": 1000,
         "assumptions": COMMON, "trusted": [T["Z3"], T["YAML"], T["DC"]],
         "explanation": "run_bldfm_single's result record equals the documented pipeline term over keyword-normalised uninterpreted callees (48 discrete configurations x symbolic everything else); every parser field equals the raw value or the dataclass default; missing sections rejected; load_config = parse_config_dict(yaml.safe_load(file)); tower local coordinates and validate() at construction; get_step per C16.",
         "level_text": "EUF equality between the real function's result and the specification term, for all inputs.",
@@ -134,7 +134,7 @@ PROPERTIES = {
 
 PROPERTIES.update({
     "C08": {
-        "modules": ["utilsc", "interface", "parser", "solver", "most"], "level": "other", "floor": 300,
+        "modules": ["utilsc", "interface", "parser", "solver", "most", "geo"], "level": "other", "floor": 300,
         "assumptions": SOLVER_ASSUME, "trusted": [T["Z3"], T["DFT"], T["IVPC"]],
         "explanation": "PROVED: compute_wind_fields returns -speed*(sin, cos)(dir*pi/180) for scalars and arrays (the stated convention: clockwise from north, direction the wind blows FROM), speed preserved (Pythagoras instance), cardinal directions blow toward S/W/N/E (exact sin/cos values); the interface hands wind=(u,v) in that order, every closure (MOST, MOSTM, CONSTANT, OAAHOC) returns profiles along that same direction with exactly (u,v) at the measurement height (vertical_profiles: wind clauses), the tower's local (x,y) as measurement point and (xmax,ymax) as domain (pipeline term of run_bldfm_single); tower local coordinates are x east / y north of the reference (parser); the solver's grid has X along the last axis with step dx and Y along the first with dy, u/Kx paired with kx (GEO/SC). NOT decided by contracts: 'the bearing from the tower to the footprint centroid equals the wind direction within a few degrees' is a quantitative statement about the PDE solution on a periodic discrete domain: BOUNDED runs over directions x stabilities x closures x grids (bounded/C08.py).",
         "level_text": "Convention chain proved function by function; the physical centroid clause is outside contract reach and covered by a bounded stand-in, labelled bounded.",
